@@ -148,7 +148,7 @@ def r11(repo, res):
             kind, out = fold_solve_minor(repo, inst, "all", 10 ** 6, wrapper)
         except Unfoldable as e:
             res.err("C04.R11", f"solve_minor_model outside the folding language: {e}")
-            return
+            continue   # no verdict on this instance; what the others show is still reported
         if kind == "raise":
             bad.setdefault("runs", f"{tag}: raises {out}")
             continue
@@ -184,7 +184,7 @@ def r11(repo, res):
                 kind, rep = fold_solve_minor(repo, inst, "report", mx, wrapper)
             except Unfoldable as e:
                 res.err("C04.R12", f"solve_minor_model outside the folding language: {e}")
-                return
+                continue   # no verdict on this instance; what the others show is still reported
             if kind == "raise":
                 bad.setdefault("report", f"{tag}, at most {mx} solution(s): raises {rep}")
                 continue
